@@ -256,6 +256,10 @@ def make_extern(rec: Recorder, setup=False):
             n = _name_of(args[0])
             r = log(it, "notify_register", n.name)
             return Agg("{future}", ["notify_await", n.name, r])
+        if plain == "tokio::sync::Notify::notify_one":
+            n = _name_of(args[0])
+            log(it, "notify_one", n.name)
+            return UNIT
         if plain == "tokio::sync::Notify::notify_waiters":
             n = _name_of(args[0])
             log(it, "notify_all", n.name)
